@@ -70,7 +70,7 @@ func (r *Root) Stop() { close(r.StopCh) }
 
 // ---- filters of the small universe -----------------------------------------------------
 
-var FilterNames = []string{"Null", "All", "l=1", "l=0", "name=a", "FN(l==1)"}
+var FilterNames = []string{"Null", "All", "l=1", "l=0", "name=a", "FN(l==1)", "And(l=1,name=a)", "And(l=1,name=b)"}
 
 func MkFilter(i int) filter.Filter {
 	switch i {
@@ -84,6 +84,11 @@ func MkFilter(i int) filter.Filter {
 		return filter.Labels(map[string]string{"l": "0"})
 	case 4:
 		return filter.NSName(nsname.New("ns", "a"))
+	case 6:
+		return filter.And(filter.Labels(map[string]string{"l": "1"}), filter.NSName(nsname.New("ns", "a")))
+	case 7:
+		// same first child as 6, different second child
+		return filter.And(filter.Labels(map[string]string{"l": "1"}), filter.NSName(nsname.New("ns", "b")))
 	default:
 		return filter.FN(func(o metav1.Object) bool { return o.GetLabels()["l"] == "1" })
 	}
@@ -100,6 +105,10 @@ func RefAccept(i int, o metav1.Object) bool {
 		return o.GetLabels()["l"] == "1"
 	case 3:
 		return o.GetLabels()["l"] == "0"
+	case 6:
+		return o.GetLabels()["l"] == "1" && o.GetNamespace() == "ns" && o.GetName() == "a"
+	case 7:
+		return o.GetLabels()["l"] == "1" && o.GetNamespace() == "ns" && o.GetName() == "b"
 	default:
 		return o.GetNamespace() == "ns" && o.GetName() == "a"
 	}
